@@ -739,7 +739,7 @@ class ShortIntegrationFrameComputer(LinearFilterBankFrameComputer):
             if frame_style == "centered":
                 left_samp, right_samp = bank.supports[filt_idx]
                 mid_samp = (left_samp + right_samp) // 2
-                filt = np.roll(filt, self._translation - mid_samp + 1)
+                filt = np.roll(filt, self._translation - mid_samp)
             else:
                 filt = np.roll(filt, self._translation)
             # we clamp the support in time to make the filter FIR.
